@@ -81,8 +81,15 @@ def run (j : Json) : Except String Json := do
   let trig := tab a fun r c => Json.str (triggerAt meth a mid r c)
   let kinds := tab a fun r c => Json.str (match kindOf meth a r c with
     | .none => "" | .occl => "occl" | .mism => "mism" | .mismAsOccl => "mism_as_occl")
+  -- sgm: pixels whose second-lowest |d| is tied between +q and −q (the sign is fixed by the sort's stability only)
+  let ties := tab a fun r c =>
+    match meth, kindOf meth a r c, out.disp r c with
+    | .sgm, .occl, .num q | .sgm, .mismAsOccl, .num q =>
+      let src := nums (sourcesSgm mid r c)
+      Json.bool (q != 0 && src.contains q && src.contains (-q))
+    | _, _, _ => Json.bool false
   return mkObj (dmapToJson out ++
-    [("mid_disp", gridToJson valToJson (tab mid mid.disp)), ("mid_flag", gridToJson natToJson (tab mid mid.flag)),
+    [("sign_tie", gridToJson id ties), ("mid_disp", gridToJson valToJson (tab mid mid.disp)), ("mid_flag", gridToJson natToJson (tab mid mid.flag)),
      ("trigger", gridToJson id trig), ("kind", gridToJson id kinds), ("wf", wfJson meth off a)])
 
 /-- one numba kernel of the model on its own -/
